@@ -221,3 +221,103 @@ Example ex_characterisation_hyps : all_bytes ex_msg = true /\ have_message max_m
 Proof. split; [vm_compute; reflexivity|]. split; [vm_compute; reflexivity|]. eexists. vm_compute. reflexivity. Qed.
 Example ex_loose_not_strict : wf_msg_x f2_msg = true /\ wf_msg f2_msg = false /\ msg_strict f2_msg = false.
 Proof. repeat split; vm_compute; reflexivity. Qed.
+
+(* ---- C01, accessor clause: "every value subsequently read through the accessor and iterator API
+   equals the value encoded on the wire".  The libdbus message READER (DBusTypeReader behind
+   dbus_message_iter_init / get_arg_type / next / recurse / get_basic / get_signature /
+   get_element_count / get_fixed_array) is modelled as a cursor machine in Wire/Reader.v; reads
+   outside the buffers are an explicit R_FAULT, failed C assertions R_ASSERT.  Proofs in
+   Proofs/ReaderProofs.v.
+   Append this text to Props/C01.v; it needs the additional import on the next line. ---- *)
+From DV Require Import Wire.Reader Proofs.SigRoundtrip Proofs.ReaderProofs.
+
+(* ALL values that are well formed per the specification (unbounded), both byte orders: reading the canonical
+   encoding with the signature printed from the values gives back exactly the values -- hence no read
+   outside the buffer, no failed assertion, no fuel exhaustion.  (The premise on the types constrains only
+   the element types of EMPTY arrays, which [wfb] leaves arbitrary: C01_reader_needs_types.) *)
+Theorem C01_reader_correct : forall le vs,
+  wfsb le vs 0 0 = true -> forallb ty_okb (map ty_of_val vs) = true ->
+  read_all le (flat_map print_ty (map ty_of_val vs)) (encs le vs 0) = inl vs.
+Proof. exact reader_correct. Qed.
+Print Assumptions C01_reader_correct.
+
+(* the same at any position of a larger buffer, followed by anything, for every value the reader can
+   make sense of ([rwf]: sizes fit their length words, strings are NUL-free, element / contained types are
+   types of the grammar; no nesting limit, no content checks) and every sufficient fuel *)
+Theorem C01_reader_anywhere : forall le pre vs rest d,
+  rwfs le vs (nlen pre) = true -> (heights vs < d)%nat ->
+  dump le (tysig vs ++ [0]) (pre ++ encs le vs (nlen pre) ++ rest) d (reader_init 0 (nlen pre)) = inl vs.
+Proof. exact reader_rwf_at. Qed.
+Print Assumptions C01_reader_anywhere.
+
+(* EVERY body the validator model accepts for a signature of the grammar: it is the canonical encoding of
+   values vs of those types, and the reader reads exactly vs.  No exclusion: the two recorded deviations of
+   the validator (F11, FD65) concern nesting limits, which the reader does not have. *)
+Theorem C01_reader_after_validation : forall le sg tys body,
+  parse_sig sg = Some tys -> all_bytes body = true -> validate_body le tys body = V_VALID ->
+  exists vs, map ty_of_val vs = tys /\ wfxs le vs 0 0 = true /\ body = encs le vs 0 /\ read_all le sg body = inl vs.
+Proof. exact reader_after_validation. Qed.
+Print Assumptions C01_reader_after_validation.
+
+(* ... and outside those two deviations these are well-formed values per the specification, the ones the
+   specification decoder returns *)
+Theorem C01_reader_after_validation_spec : forall le sg tys body,
+  parse_sig sg = Some tys -> all_bytes body = true -> validate_body le tys body = V_VALID ->
+  exists vs, read_all le sg body = inl vs /\ body = encs le vs 0 /\
+             (forallb (nodev 0) vs = true -> wfsb le vs 0 0 = true /\ dec_seq le tys 0 body = Some (vs, nlen body, [])).
+Proof. exact reader_after_validation_spec. Qed.
+Print Assumptions C01_reader_after_validation_spec.
+
+(* reader = specification decoder on every body the decoder accepts *)
+Theorem C01_reader_eq_decoder : forall le sg tys body vs p,
+  parse_sig sg = Some tys -> all_bytes body = true -> dec_seq le tys 0 body = Some (vs, p, []) ->
+  read_all le sg body = inl vs.
+Proof. exact reader_eq_decoder. Qed.
+Print Assumptions C01_reader_eq_decoder.
+
+(* whole messages: every message the loader model queues from a buffer of bytes is the canonical encoding of
+   an abstract message m; its body part is the encoding of m's body values, and the reader, initialised as
+   dbus_message_iter_init does (on the body, with the message's signature), reads exactly those values *)
+Theorem C01_reader_loaded : forall le fl hl bl fds d msg,
+  all_bytes d = true -> have_message max_message d = HaveOk le fl hl bl true ->
+  load_message le fl hl bl fds d = inl msg ->
+  exists m, m_header msg ++ m_body msg = spec_encode_message m /\ s_le m = le /\ wf_msg_x m = true /\
+            m_body msg = encs le (s_body m) 0 /\ read_all le (s_sig m) (m_body msg) = inl (s_body m).
+Proof. exact reader_loaded. Qed.
+Print Assumptions C01_reader_loaded.
+
+(* dbus_message_iter_get_element_count of an array argument = the number of its elements *)
+Theorem C01_reader_element_count : forall le et xs rest,
+  rwfs le (VArr et xs :: rest) 0 = true ->
+  first_element_count le (tysig (VArr et xs :: rest)) (encs le (VArr et xs :: rest) 0) = inl (N.of_nat (length xs)).
+Proof. exact element_count_correct. Qed.
+Print Assumptions C01_reader_element_count.
+
+(* dbus_message_iter_recurse + dbus_message_iter_get_fixed_array on an array of fixed-size elements: the
+   block is exactly the elements' bytes (message byte order), the count the number of elements *)
+Theorem C01_reader_fixed_array : forall le c sz xs rest,
+  fixed_size c = Some sz -> rwfs le (VArr (TBasic c) xs :: rest) 0 = true ->
+  first_fixed_array le (tysig (VArr (TBasic c) xs :: rest)) (encs le (VArr (TBasic c) xs :: rest) 0) =
+    inl (flat_map (fun n => bytes_of le (N.to_nat sz) n) (nums_of xs), N.of_nat (length xs)) /\
+  length (nums_of xs) = length xs.
+Proof. exact fixed_array_correct. Qed.
+Print Assumptions C01_reader_fixed_array.
+
+(* what the reader needs follows from what the validator guarantees / the specification demands *)
+Theorem C01_reader_premise_from_validator : forall le vs depth pos,
+  wfxs le vs depth pos = true -> forallb ty_okb (map ty_of_val vs) = true -> rwfs le vs pos = true.
+Proof. exact wfxs_rwfs_all. Qed.
+Print Assumptions C01_reader_premise_from_validator.
+
+(* non-vacuity and necessity of the premises *)
+Example C01_reader_ex_hyps : wfsb true ex_vals 0 0 = true /\ wfsb false ex_vals 0 0 = true /\ forallb ty_okb (map ty_of_val ex_vals) = true.
+Proof. exact ex_vals_wf. Qed.
+Example C01_reader_ex_validated : validate_body true (map ty_of_val ex_vals) (encs true ex_vals 0) = V_VALID /\
+  parse_sig (tysig ex_vals) = Some (map ty_of_val ex_vals) /\ all_bytes (encs true ex_vals 0) = true.
+Proof. exact ex_validated. Qed.
+Example C01_reader_ex_fault : read_all true (tysig ex_vals) (firstn 20 (encs true ex_vals 0)) = inr R_FAULT.
+Proof. exact ex_fault. Qed.
+Example C01_reader_needs_types :
+  wfsb true [VArr (TBasic 0) []] 0 0 = true /\
+  read_all true (flat_map print_ty (map ty_of_val [VArr (TBasic 0) []])) (encs true [VArr (TBasic 0) []] 0) = inr R_ASSERT.
+Proof. exact reader_needs_types. Qed.
